@@ -19,7 +19,8 @@ BASE = {"q": "query", "id": "path", "h": "header"}
 LOC_CODE = {"q": "query", "h": "header", "p": "path", "c": "cookie"}
 
 #: operation-level candidates: same (name, in) with a different schema / required flag, or same name elsewhere
-OWN_CODES_QUICK = ["q!sr", "q!s", "q!r", "q@h", "h!sr", "h@q", "id!s", "id@q"]
+#: ``q^``: the name in another letter case (`Q`), same location - a different parameter (query names are case-sensitive)
+OWN_CODES_QUICK = ["q!sr", "q!s", "q!r", "q@h", "h!sr", "h@q", "id!s", "id@q", "q^"]
 OWN_CODES_THOROUGH = OWN_CODES_QUICK + ["h!s", "h!r"]
 
 
@@ -27,7 +28,10 @@ def pdef(code: str, flavour: str = "main") -> dict:
     """Parameter definition for a code.  ``q`` = path-level flavour (string, required); ``q!s`` schema differs,
     ``q!r`` required flag differs, ``q!sr`` both, ``q@h`` same name in the header location.
     ``decoy`` = what a *different* document holds under the same pointer (used by the two-file layout)."""
-    if "@" in code:
+    if code.endswith("^"):
+        name = code[:-1]
+        d = {"name": name.upper(), "in": BASE[name], "required": False, "schema": {"type": "integer"}}
+    elif "@" in code:
         name, loc = code.split("@")
         d = {"name": name, "in": LOC_CODE[loc], "required": False, "schema": {"type": "integer"}}
     elif "!" in code:
@@ -40,14 +44,14 @@ def pdef(code: str, flavour: str = "main") -> dict:
     else:
         d = {"name": code, "in": BASE[code], "required": True, "schema": {"type": "string"}}
     if flavour == "decoy":
-        d["schema"] = {"type": "boolean"} if "!" not in code and "@" not in code else {"type": "number"}
+        d["schema"] = {"type": "boolean"} if "!" not in code and "@" not in code and "^" not in code else {"type": "number"}
         if d["in"] != "path":
             d["required"] = not d["required"]
     return d
 
 
 def key_of(item: str, code: str) -> str:
-    return f"{item}_{code}".replace("!", "_x").replace("@", "_at_")
+    return f"{item}_{code}".replace("!", "_x").replace("@", "_at_").replace("^", "_up")
 
 
 NODE = {"main": {"type": "object", "properties": {"child": {"$ref": None}, "v": {"type": "integer"}}, "required": ["v"]},
